@@ -795,6 +795,11 @@ def q_uni(s, a):
         U = embed(rec["U"], [2] * s.N, rec["qubits"]) @ U
     uni = s.circ.uni
     got = np.asarray(uni.to_dense())
+    if got.shape != U.shape:
+        # the default to_dense() of the operator network lists the legs of the sites *present by tag*: a wire whose site tag
+        # vanished is silently summed over (seen after a lazy SWAP relabelled a wire whose only gate carries the old tag)
+        lazy_swap = any(rec["label"] == "SWAP" and not rec["ncontrols"] for rec in s.gates)
+        raise Violation("uni-dense-drops-wire", cls=s.cls, lazy_swap=bool(lazy_swap), got=list(got.shape))
     check(s, got, U, "uni", floor=math.sqrt(2 ** s.N))
 
 
